@@ -471,6 +471,7 @@ class DataLexer(ParticleLexer):
         COMMENT,
         COMPLEMENT,
         DOLLAR_COMMENT,
+        FILE_PATH,
         INTERPOLATE,
         JUMP,
         KEYWORD,
@@ -489,6 +490,12 @@ class DataLexer(ParticleLexer):
         THERMAL_LAW,
         ZAID,
     }
+
+    FILE_PATH = r'[^><:"%,;=&\(\)|?*\s+][^><:"%,;=&\(\)|?*\s]*'
+    """
+    A file path. In a data input it does not start with ``+``, so that the modifier of ``+F6`` and the
+    particle designator ``+`` reach :func:`PARTICLE_SPECIAL`.
+    """
 
     @_(r"([|+\-!<>/%^_~@\*\?\#]|\#\d*)+")
     def PARTICLE_SPECIAL(self, t):
